@@ -368,13 +368,13 @@ void World::run_ctx(std::string const& ctx)
 }
 
 void World::on_handler(std::string const& h, boost::system::error_code const& ec
-	, std::string const& extra)
+	, std::string const& extra, bool run_ops)
 {
 	emit("H %s t=%lld ec=%s%s%s incall=%d", h.c_str(), (long long)now_ns(), ec_name(ec)
 		, extra.empty() ? "" : " ", extra.c_str(), api_depth > 0 ? 1 : 0);
 	// the wait's slot is known to be free again once its handler has run
 	for (auto& tp_ : timer_pending) if (tp_.second == h) { tp_.second.clear(); }
-	run_ctx(h);
+	if (run_ops) run_ctx(h);
 }
 
 std::function<void(boost::system::error_code const&)> World::make_h(std::string h)
@@ -406,10 +406,19 @@ bool World::op_kernel(std::string const& ctx, toks const& op)
 	if (o == "run")
 	{
 		emit("C %s run", c);
-		std::size_t n = sim->run();
-		emit("R %s run => n=%zu t=%lld", c, n, (long long)now_ns());
+		try
+		{
+			std::size_t n = sim->run();
+			emit("R %s run => n=%zu t=%lld", c, n, (long long)now_ns());
+		}
+		catch (scenario_exception const&)
+		{
+			// a user handler threw: run() cancelled what is pending, stopped and rethrew
+			emit("R %s run => throw t=%lld", c, (long long)now_ns());
+		}
 		return true;
 	}
+	if (o == "throw") { emit("C %s throw", c); throw scenario_exception(); }
 	if (o == "stop") { sim->stop(); emit("C %s stop => -", c); return true; }
 	if (o == "restart") { sim->restart(); emit("C %s restart => -", c); return true; }
 	if (o == "now") { emit("C %s now => %lld", c, (long long)now_ns()); return true; }
@@ -509,13 +518,13 @@ int World::execute()
 
 World::~World()
 {
-	g_mute = true;
+	g_muted = true;
 	net.reset();
 	timers.clear();
 	nodes.clear();
 	sim.reset();
 	cfg.reset();
-	g_mute = false;
+	g_muted = false;
 	if (!pcap_path.empty())
 	{
 		// the capture is complete once the simulation (and its pcap object) is gone
